@@ -41,6 +41,9 @@ pub fn run_line(line: &str, scratch: &str) -> String {
         "build" => by_width!(c, op_build, scratch),
         "hist" => by_width!(c, op_hist, scratch),
         "skf" => by_width!(c, op_skf, scratch),
+        "covll" => op_covll(c),
+        "covcut" => op_covcut(c),
+        "cov" => by_width!(c, op_cov, scratch),
         "reads" => by_width!(c, op_reads, scratch),
         "skfaults" => by_width!(c, op_skfaults, scratch),
         "build2" => by_width!(c, op_build2, scratch),
@@ -647,4 +650,66 @@ fn op_reads<IntT: for<'a> UInt<'a>>(c: &Case, scratch: &str) -> String {
     v.sort();
     let items: Vec<String> = v.iter().map(|(a, b)| format!("{}:{}", a, *b as char)).collect();
     join(&items)
+}
+
+
+// ------------------------------------------------------------------ C20: coverage
+
+use ska::coverage::verif_hooks as covh;
+use ska::coverage::CoverageHistogram;
+
+fn fb(x: f64) -> String {
+    format!("%{}", x.to_bits())
+}
+
+fn f_of(s: &str) -> f64 {
+    f64::from_bits(s.parse::<u64>().unwrap())
+}
+
+fn op_covll(c: &Case) -> String {
+    let pars = [f_of(c.get("w0")), f_of(c.get("c"))];
+    let counts: Vec<f64> = c.list("counts").iter().map(|x| x.parse::<f64>().unwrap()).collect();
+    let ll = covh::log_likelihood(&pars, &counts);
+    let g = covh::grad_ll(&pars, &counts);
+    format!("{} {} {}", fb(ll), fb(g[0]), fb(g[1]))
+}
+
+fn op_covcut(c: &Case) -> String {
+    let pars = [f_of(c.get("w0")), f_of(c.get("c"))];
+    format!("cut={}", covh::find_cutoff(&pars, c.usize("max")))
+}
+
+fn fnv_str(s: &str) -> u64 {
+    crc_simple(s.as_bytes())
+}
+
+/// full pipeline on a read pair: counting, histogram, fit, cutoff
+fn op_cov<IntT: for<'a> UInt<'a>>(c: &Case, scratch: &str) -> String {
+    let dir = format!("{scratch}/cov");
+    std::fs::create_dir_all(&dir).unwrap();
+    let (p1, p2) = (format!("{dir}/r1.fastq"), format!("{dir}/r2.fastq"));
+    write_fastq(&p1, &c.list("r1"));
+    write_fastq(&p2, &c.list("r2"));
+    let mut cov = CoverageHistogram::<IntT>::new(&p1, &p2, c.usize("k"), c.flag("rc"), false);
+    let mut kc = covh::kmer_counts(&cov);
+    kc.sort();
+    let items: Vec<String> = kc.iter().map(|(k, v)| format!("{}:{}", k, v)).collect();
+    let dict_hash = fnv_str(&items.join(","));
+    let fit = cov.fit_histogram();
+    let (w0, cc, cutoff, counts) = covh::fitted(&cov);
+    let _ = std::fs::remove_dir_all(&dir);
+    let hist: Vec<String> = counts.iter().map(|x| x.to_string()).collect();
+    match fit {
+        Ok(cut) => format!(
+            "nkeys={} dict={} fit=ok w0={} c={} cutoff={} ret={} hist={}",
+            kc.len(),
+            dict_hash,
+            fb(w0),
+            fb(cc),
+            cutoff,
+            cut,
+            join(&hist)
+        ),
+        Err(_) => format!("nkeys={} dict={} fit=err hist={}", kc.len(), dict_hash, join(&hist)),
+    }
 }
